@@ -27,9 +27,18 @@ add("C12", "symx", "4/C12", "beat_at/time_at round trip, pause interior, half-ti
 add("C13", "symx", "4/C13", "hittable equals the warp-union rule for every placement of <=3 (thorough 4) events; time_notes output decided for 1-2 symbolic notes x 3 options")
 add("C14", "symx", "4/C14", "Beat construction, snapping, operator overrides, 3-decimal text round trip for ALL integers, BeatValues/TimingData string round trips with symbolic ticks and 6-place decimals")
 
-for i, r in {"C01": "", "C02": "", "C03": "", "C04": "", "C05": "", "C06": "", "C15": "", "C16": "", "C17": "", "C18": "", "C19": "", "C20": ""}.items():
-    NA[i] = "CrossHair harness for this property is still being built in this working session (designed in DESIGN.md section 4); not claimed until its check runs clean"
-
+add("C01", "xh", "4/C01", "SM serialize->parse round trip decided at parameter level for symbolic keys (literal-derived key set), arbitrary Unicode values <=3 (incl. None), chart fields, extra components and one edit step; auto-detection with the real tokenizer on concrete values")
+add("C02", "xh", "4/C02", "SSC round trip at parameter level with nondeterministic object identity (alias bits), NOTES/NOTES2 at every position, multi-value properties, stand-alone chart parsing")
+add("C03", "xh", "4/C03", "the documented loading rules decided on parameter streams with two symbolic parameters (key spelling, shape, components <=2 chars) against a functional specification; entry-point agreement, format detection (symbolic name suffix as a unit) and strictness on 9 concrete texts")
+add("C04", "xh", "4/C04", "parse -> serialize -> parse -> serialize on parameter streams with a symbolic component; five corpus files through the real tokenizer")
+add("C05", "xh", "4/C05", "encoding choice for every decode-outcome vector and order; mutate over the model filesystem for every output/backup configuration and 5 edit operations with symbolic values: what is written, where, in which encoding")
+add("C06", "xh", "4/C06", "body exceptions of every class at 3 positions, three kinds of save failure, and a fault at the k-th filesystem operation for symbolic k: input intact, backup complete")
+add("C15", "symx", "4/C15", "timing_source / TimingData / displaybpm decided with the emptiness of all present chart timing properties symbolic (2^11), 4 absence patterns, 7 versions, all kinds, 8x8 DISPLAYBPM classes")
+add("C16", "symx", "4/C16", "sm_to_ssc with symbolic signed BPM/stop values and ticks, optional keys, 0..2 charts, 3 template variants; timing and notes identical on both sides; text loads back equal (real tokenizer, concrete)")
+add("C17", "symx", "4/C17", "ssc_to_sm for all 5^5 behaviour mappings (lazy case split), default-ness of every present SSC-only property symbolic, presence patterns, WARPS classes, templates; two-call sequences; sm->ssc->sm round trip")
+add("C18", "xh", "4/C18", "one inductive step from every pre-state over 4 key roles: 7 (kind, property) cases x 15 operations against a dict model; SM chart refusals (14 operations)")
+add("C19", "xh", "4/C19", "extension classification for every printable suffix <=4 (unit) and directory/pack discovery over model trees of <=3 entries from representatives (logic), kwargs pass-through, opendir/openpack agreement")
+add("C20", "xh", "4/C20", "asset patterns: z3 regex equivalence of the presets with the documented predicate for all stems (unbounded) + CrossHair on matches(); lookup logic over model directories x 8 specification classes; pack banner priority")
 
 def main():
     checks = []
